@@ -241,6 +241,11 @@ def explore(ctx, drv, model, cases, search=False):
         f = impl[i].split("\t")
         g = (m or "NOOUTPUT").split("\t")
         rep = {"family": "c27", "case": cases[i]}
+        if g[0] in ("FAIL timeout", "FAIL stack_overflow", "FAIL out_of_memory"):
+            # the extracted model recomputes the hashes of whole trees at every container comparison; on a case
+            # with very large intermediate sets it is abandoned after 20 s of CPU (ocaml/c27_main.ml)
+            ctx.cov["model_too_slow_not_compared"] = ctx.cov.get("model_too_slow_not_compared", 0) + 1
+            continue
         if len(g) < 5:
             ctx.broken.append({"kind": "correspondence", "name": "C27 model reader", "detail": "%s\n%s\n%s" % (cases[i], impl[i][:500], m)})
             continue
@@ -302,6 +307,9 @@ def run(ctx):
     if ctx.broken and not [v for v in ctx.violations if v["key"].startswith("unclassified")]:
         explore(ctx, drv, model, [gen_case(ctx.rng) for _ in range(4000)], search=True)
     ctx.cov.pop("_seen", None)
+    if ctx.cov.get("model_too_slow_not_compared", 0) * 100 > max(1, ctx.cov["evaluations"]):
+        ctx.broken.append({"kind": "correspondence", "name": "C27 model speed",
+                           "detail": "%d cases were abandoned by the model's CPU limit" % ctx.cov["model_too_slow_not_compared"]})
     ctx.cov["rule"] = ("cases = one set operation (member functions set_union / set_intersection / set_complement, the free functions, "
                        "set_complement_helper, contains, sup, inf, boundary, interior, closure) on operands built by recipes (constructors, raw "
                        "Union/Intersection/Complement constructors, nested operations); complete small universes of interval x interval and "
